@@ -71,21 +71,19 @@ pub fn make_pool(workers: usize) -> rayon::ThreadPool {
     rayon::ThreadPoolBuilder::new()
         .num_threads(workers)
         .spawn_handler(|thread| {
-            let id = sim::register_thread();
+            // An ordinary spawn: the interposed pthread_create registers the new thread with the simulator and
+            // wraps its start routine, so that everything the standard library does around the closure - at the
+            // start and, more importantly, at the end of the thread (its stack-overflow bookkeeping takes a
+            // process-wide lock) - happens while the thread is a simulated one. (Until round 6 the worker was
+            // registered here and left the simulation at the end of the closure: the rest of its exit then ran
+            // beside the simulated threads, and a thread that started at that very moment could find the lock
+            // taken, block in the simulator, and never be woken - by a wake the simulator did not see.)
             let mut b = std::thread::Builder::new();
             if let Some(n) = thread.name() {
                 b = b.name(n.to_string());
             }
             b = b.stack_size(thread.stack_size().unwrap_or(16 << 20));
-            let h = sim::with_raw_spawn(|| {
-                b.spawn(move || {
-                    sim::thread_begin(id);
-                    thread.run();
-                    sim::thread_end();
-                })
-            })?;
-            use std::os::unix::thread::JoinHandleExt;
-            sim::thread_spawned_as(id, h.as_pthread_t());
+            b.spawn(move || thread.run())?;
             Ok(())
         })
         .build()
